@@ -56,7 +56,9 @@ WriteRecs(x, rs) ==
             !.direct = IF Len(x.bufs) = 1 THEN @ \cup {rs[i].n : i \in 1..Len(rs)} ELSE @]
 Lit(x, ts) == [WriteRecs(x, Recs(x, ts)) EXCEPT !.wn = @ + Len(ts)]
 AccLit(x, ts) == [x EXCEPT !.ctl[Len(x.ctl)].acc = @ \o Recs(x, ts), !.wn = @ + Len(ts)]
-Give(x, sink, v) == IF sink = "acc" THEN [x EXCEPT !.ctl[Len(x.ctl)].acc = @ \o v] ELSE x
+Give(x, sink, v) == IF sink = "acc" THEN [x EXCEPT !.ctl[Len(x.ctl)].acc = @ \o v]
+                    ELSE IF sink = "write" THEN WriteRecs(x, v)        \* a block renders in place
+                    ELSE x
 Serials(rs) == {rs[i].n : i \in 1..Len(rs)}
 Lose(x, rs) == [x EXCEPT !.lost = @ \cup Serials(rs)]
 (* push a control frame; the snapshot of the stacks is taken AFTER the construct's own pushes *)
@@ -102,7 +104,7 @@ Bind(ps, ar) ==
 (* ------------------------------------------------------------------ initial state                *)
 Init ==
   /\ pid \in 1..Len(Progs) /\ raiseAt \in 0..MaxRaise
-  /\ m = [ctl |-> << [kind |-> "top", code |-> Progs[pid].body, pc |-> 1, cal |-> None, lix |-> 1,
+  /\ m = [ctl |-> << [kind |-> "top", code |-> IF Progs[pid].inh THEN Progs[pid].base ELSE Progs[pid].body, pc |-> 1, cal |-> None, lix |-> 1,
                       vars |-> EmptyEnv, ownl |-> TRUE, sb |-> 1, sc |-> <<None>>, sl |-> << <<>> >>, snc |-> None] >>,
           bufs |-> << <<>> >>, callers |-> <<None>>, nc |-> None, ls |-> << <<>> >>,
           mode |-> "run", exck |-> "none", cnt |-> 0, wn |-> 0, obs |-> <<>>,
@@ -184,9 +186,20 @@ ExecEnter ==     \* inside a decorator: the wrapped render function is called
   /\ Running /\ Stmt.k = "enter"
   /\ LET b == Bind(Prog.defs[Stmt.d].params, Stmt.args)
      IN Step(IF ~b.ok THEN Raise(Adv(m), "type") ELSE Enter(Adv(m), Stmt.d, b.env, "acc"))
-ExecBlock ==     \* anonymous <%block>: an inline def called in place, value dropped
+ExecBlock ==     \* anonymous <%block>: an inline def called in place; its content appears at that place
   /\ Running /\ Stmt.k = "block"
-  /\ Step(Enter(Adv(m), Stmt.d, EmptyEnv, "drop"))
+  /\ Step(Enter(Adv(m), Stmt.d, EmptyEnv, "write"))
+ExecTextFilter ==  \* <%text filter="f">raw</%text>: _push_writer, the text, _pop_buffer_and_writer, filter, write
+  /\ Running /\ Stmt.k = "textf"
+  /\ LET x == Adv(m) IN
+     Step(PushF([x EXCEPT !.wn = @ + 1],
+                [kind |-> "fin", code |-> IF Stmt.fm = 0 THEN <<>> ELSE <<[k |-> "mark", m |-> Stmt.fm, rl |-> FALSE, w |-> "x"]>>,
+                 pc |-> 1, cal |-> Top.cal, lix |-> Top.lix, val |-> Recs(x, <<Stmt.t>>), flags |-> {"filter"}, sink |-> "drop"]))
+ExecNextBody ==    \* ${next.body()} in an inherited (base) template: the inheriting template's render_body
+  /\ Running /\ Stmt.k = "nextbody"
+  /\ LET x1 == [Adv(m) EXCEPT !.callers = Append(@, m.nc), !.nc = None, !.ls = Append(@, <<>>)]
+     IN Step(PushF(x1, [kind |-> "inc", code |-> Prog.body, pc |-> 1, cal |-> m.nc, lix |-> Len(x1.ls),
+                        vars |-> EmptyEnv, ownl |-> TRUE, ieh |-> "none"]))
 
 (* leaving a def normally or by `return`: the finally part, then write_def_finish's tail *)
 DefFinish(x, drop) ==
@@ -338,11 +351,23 @@ Unwind ==
             [] f.kind \in {"for", "fels"} -> PopLoop(PopCtl(m), f)
             [] f.kind = "with" -> Lit(PopCtl(m), <<f.t2>>)
             [] f.kind = "inc" ->
-                   IF f.ieh THEN [Lit(ActExit(m, f), <<"ieh">>) EXCEPT !.mode = "run", !.exck = "none"]
-                   ELSE ActExit(m, f)
+                   \* runtime._include_file: `except Exception:` around the included body -- a planted exception
+                   \* that derives from BaseException only passes through; the handler is called, writes, and
+                   \* returns True (handled), returns a false value (declines: the original propagates) or raises
+                   \* a different exception (which propagates instead)
+                   IF f.ieh = "none" \/ (m.exck = "boom" /\ ~Prog.xb) THEN ActExit(m, f)
+                   ELSE LET xi == Lit(ActExit(m, f), <<"ieh">>) IN
+                        (CASE f.ieh = "true" -> [xi EXCEPT !.mode = "run", !.exck = "none"]
+                           [] f.ieh = "false" -> xi
+                           [] f.ieh = "raise" -> [xi EXCEPT !.exck = "other"])
             [] f.kind = "top" ->
-                   \* runtime._exec_template / _render_error: error_handler returning True, format_exceptions, or propagate
-                   IF Prog.eh THEN [Lit(ActExit(m, f), <<"eh">>) EXCEPT !.mode = "run", !.exck = "none", !.done = TRUE, !.res = "handled"]
+                   \* runtime._exec_template / _render_error: error_handler (called for every exception class),
+                   \* format_exceptions, or propagate to the caller of render()
+                   IF Prog.eh # "none"
+                   THEN LET xt == [Lit(ActExit(m, f), <<"eh">>) EXCEPT !.done = TRUE] IN
+                        (CASE Prog.eh = "true" -> [xt EXCEPT !.mode = "run", !.exck = "none", !.res = "handled"]
+                           [] Prog.eh = "false" -> [xt EXCEPT !.res = "exc:" \o m.exck]
+                           [] Prog.eh = "raise" -> [xt EXCEPT !.exck = "other", !.res = "exc:other"])
                    ELSE IF Prog.fe
                         THEN [ActExit(m, f) EXCEPT !.bufs = << <<[t |-> "ERRPAGE", n |-> m.wn + 1]>> >>, !.wn = @ + 1, !.direct = {},
                                                    !.mode = "run", !.exck = "none", !.done = TRUE, !.res = "page"]
@@ -372,7 +397,7 @@ BreakCont ==
             [] OTHER -> PopCtl(m))
 
 Next == \/ ExecMark \/ ExecSimple \/ ExecExpr \/ ExecCall \/ ExecEnter \/ ExecBlock \/ ExecCapture
-        \/ ExecCallContent \/ ExecCallerBody \/ ExecInclude \/ ExecIf \/ ExecFor \/ ExecWhile \/ ExecTry
+        \/ ExecCallContent \/ ExecCallerBody \/ ExecInclude \/ ExecTextFilter \/ ExecNextBody \/ ExecIf \/ ExecFor \/ ExecWhile \/ ExecTry
         \/ ExecWith \/ ExitFrame \/ Unwind \/ Return \/ BreakCont
 Spec == Init /\ [][Next]_vars
 
